@@ -4,6 +4,8 @@ import (
 	"bytes"
 	"encoding/json"
 	"fmt"
+	"regexp"
+	"sort"
 	"strings"
 	"time"
 
@@ -242,6 +244,54 @@ func modOracle(c *Ctx, mc *gen.ModCase, run modRun) (line, impl string, ok bool)
 	return
 }
 
+var importRe = regexp.MustCompile(`import\("([^"]+)"\)`)
+
+// importsOf lists the import expressions of a module text in the order the compiler meets them
+// (a statement `if false { … }` is dead code the compiler skips).
+func importsOf(src string) []string {
+	var out []string
+	for _, line := range strings.Split(src, "\n") {
+		if strings.HasPrefix(line, "if false ") {
+			continue
+		}
+		for _, m := range importRe.FindAllStringSubmatch(line, -1) {
+			out = append(out, m[1])
+		}
+	}
+	return out
+}
+
+// msCase renders the `ms` request (module-store model) of a case and the compiler's answer.
+func msCase(mc *gen.ModCase) (line, impl string) {
+	var mods []string
+	names := make([]string, 0, len(mc.Mods))
+	for n := range mc.Mods {
+		names = append(names, n)
+	}
+	sort.Strings(names)
+	for _, n := range names {
+		mods = append(mods, n+"=S:"+strings.Join(importsOf(mc.Mods[n]), ","))
+	}
+	for _, b := range mc.Builtins {
+		mods = append(mods, b.Name+"=B")
+	}
+	line = fmt.Sprintf("ms\t1000\t%s\t%s", strings.Join(importsOf(mc.Main), ","), strings.Join(mods, ";"))
+	bc, _, _, err, hung, pv := modCompile(mc, modRun{})
+	switch {
+	case hung || pv != nil:
+		impl = "hang-or-panic"
+	case err == nil:
+		impl = fmt.Sprintf("ok %d", bc.NumModules)
+	case strings.Contains(err.Error(), "cyclic module import: "):
+		impl = "err cyclic " + strings.TrimSpace(strings.SplitN(strings.SplitN(err.Error(), "cyclic module import: ", 2)[1], "\n", 2)[0])
+	case strings.Contains(err.Error(), "module '"):
+		impl = "err notfound " + strings.SplitN(strings.SplitN(err.Error(), "module '", 2)[1], "'", 2)[0]
+	default:
+		impl = "err other " + err.Error()
+	}
+	return
+}
+
 func init() {
 	register(&Stream{
 		Name: "modules",
@@ -265,6 +315,12 @@ func init() {
 			}
 			for i := range cases {
 				mc := &cases[i]
+				if mc.Kind != "scope" {
+					// compile side: the module-store model predicts NumModules or the error and the module it names
+					line, impl := msCase(mc)
+					spec, _ := json.Marshal(modReplay{*mc, modRun{}})
+					c.Add(Case{Line: line + "\t#" + codec.Hex(spec), Impl: impl, Key: "ms/" + mc.Kind + "/" + mc.Shape + "/" + strings.SplitN(impl, " ", 3)[0]})
+				}
 				for _, run := range []modRun{{false, false}, {true, false}, {false, true}, {true, true}} {
 					c.Count("kind:" + mc.Kind)
 					line, impl, ok := modOracle(c, mc, run)
@@ -291,6 +347,10 @@ func init() {
 			var rp modReplay
 			if err := json.Unmarshal(raw, &rp); err != nil {
 				return "", err
+			}
+			if strings.HasPrefix(line, "ms\t") {
+				_, impl := msCase(&rp.Case)
+				return impl, nil
 			}
 			bc, _, _, err, hung, pv := modCompile(&rp.Case, rp.Run)
 			if err != nil || hung || pv != nil {
